@@ -103,7 +103,7 @@ def run(chk):
         continue
       if 'err' in r['init'] or r['init']['ok']['shape'] != d['lengths']:
         chk.violation('oracle', 'init through nn.remat_scan does not create one parameter slice per layer (shape = lengths)', {'case': d, 'observed': r['init']})
-      rows.append((d, o, '(Z.eqb (fold_left (fun c w => %s * c + w) %s %s) %s)' % (cZ(d['a']), clist([cZ(int(z)) for z in np.array(d['w']).reshape(-1)]), cZ(d['c0']), cZ(r['apply']['ok']['out']))))
+      rows.append((d, o, '(weq (fold_left (fun c w => %s * c + w) %s %s) %s)' % (cZ(d['a']), clist([cZ(int(z)) for z in np.array(d['w']).reshape(-1)]), cZ(d['c0']), cZ(r['apply']['ok']['out']))))
       continue
     specs = [v['spec'] for v in d['vars']]
     chk.count(d, d['length'] > 1 and len({('axis' if isinstance(s, int) else s) for s in specs}) >= 2)
@@ -126,9 +126,9 @@ def run(chk):
       vals = clist([C8.cvval_obs(x) for x in res['vals']])
       ys = clist([cZ(y) for y in res['ys']])
       if d['kind'] == 'scan':
-        return '(match %s with Ok (vals, cf, ys) => list_beq vval_beq vals %s && list_beq Z.eqb ys %s%s | Err _ => false end)' % (
-            m, vals, ys, (' && Z.eqb cf %s' % cZ(res['carry'][0])) if 'carry' in res else '')
-      return '(match %s with Ok (vals, ys) => list_beq vval_beq vals %s && list_beq Z.eqb ys %s | Err _ => false end)' % (m, vals, ys)
+        return '(match %s with Ok (vals, cf, ys) => list_beq vval_beq vals %s && list_beq weq ys %s%s | Err _ => false end)' % (
+            m, vals, ys, (' && weq cf %s' % cZ(res['carry'][0])) if 'carry' in res else '')
+      return '(match %s with Ok (vals, ys) => list_beq vval_beq vals %s && list_beq weq ys %s | Err _ => false end)' % (m, vals, ys)
     # ---- apply
     if expect_reject:
       stat['bcast_write'] += 1
@@ -174,8 +174,10 @@ def run(chk):
         row.append(expect_row(ini['ok'], cvars(d, init=True)))
     rows.append((d, o, '(' + ' && '.join(row) + ')'))
   chk.sample({'case': cases[0], 'observed': obs[0].get('ok', {}).get('apply')})
-  hdr = HEADER + '''Definition vval_beq (a b : vval) : bool :=
-  match a, b with Whole x, Whole y => list_beq Z.eqb x y | Slices x, Slices y => list_beq (list_beq Z.eqb) x y | _, _ => false end.
+  hdr = HEADER + '''(* the implementation computes in int64, the model in Z; the bodies are ring expressions, so the two agree modulo 2^64 *)
+Definition weq (a b : Z) : bool := Z.eqb ((a - b) mod 18446744073709551616) 0.
+Definition vval_beq (a b : vval) : bool :=
+  match a, b with Whole x, Whole y => list_beq weq x y | Slices x, Slices y => list_beq (list_beq weq) x y | _, _ => false end.
 Definition chk (b : bool) : bool := b.
 '''
   bad = common.coq_mismatches('c06', hdr, [r[2] for r in rows], 'chk', shard=60, timeout=900)
